@@ -342,10 +342,10 @@ Lemma malformed_duration : forall lay e pre a s v post, parse_dur v = None -> cl
        EC.compiled_exit true cp = 2%Z /\ EC.h_ran (EC.compiled_main true cp) = 0%nat /\ EC.h_msg (EC.compiled_main true cp) = true).
 Proof.
   intros lay e pre a s v post P C. split; intros Co.
-  - assert (B : cl_parse front_spec (pre ++ s :: v :: post) = PBad a).
+  - assert (B : cl_parse front_spec (pre ++ s :: v :: post) = PBad (fail_set a "t" KDur)).
     { apply (bad_value_next parse_dur front_spec pre a s "t" KDur v post Co C); [reflexivity|discriminate|]. simpl. rewrite P. reflexivity. }
-    apply (front_rejects lay _ e a B).
-  - assert (B : cl_parse gen_spec (pre ++ s :: v :: post) = PBad a).
+    apply (front_rejects lay _ e _ B).
+  - assert (B : cl_parse gen_spec (pre ++ s :: v :: post) = PBad (fail_set a "t" KDur)).
     { apply (bad_value_next parse_dur gen_spec pre a s "t" KDur v post Co C); [reflexivity|discriminate|]. simpl. rewrite P. reflexivity. }
     split.
     + apply (direct_rejects _ e). eauto.
